@@ -762,3 +762,113 @@ Lemma gap_quirk_witness :
   cp_fill (final ex_quirk) = [1; 3; 6; 6; 2; 2; 2; 2; 4; 0; 0; 0; 5; 5; 5; 5; 7; 7] /\
   concat (gaps (final ex_quirk)) = [(9, 1)].   (* the gap (10, 2) is gone *)
 Proof. repeat split; vm_compute; reflexivity. Qed.
+
+(* ---------------------------------------------------------------- frame: what one add must NOT change *)
+Theorem add_frame_thm p d s p' r : Inv p -> wf_cmd d s -> cp_add p d s = (p', r) -> psize p' <= 4294967296 ->
+  (forall j n, In n (nth j (trees p) []) -> In n (nth j (trees p') [])) /\
+  psize p <= psize p' /\ palign p <= palign p' /\
+  (r = InvalidArgument -> p' = p) /\
+  (forall j n x, In n (nth j (trees p) []) -> n_shared n = false -> covers n x ->
+     nth x (cp_fill p') 0 = nth x (cp_fill p) 0).
+Proof.
+  intros I Wf E G. destruct (cp_add_step p d s p' r I Wf E G) as (I' & Sz & Mono & R).
+  split; [exact Mono|]. split; [exact Sz|]. split.
+  { destruct r as [off|]; [destruct R as (_ & _ & [->|NS])|destruct R as (_ & ->)]; try lia.
+    destruct NS as (_ & EA & _). rewrite EA. lia. }
+  split.
+  { intros ->. destruct R as (_ & ->). reflexivity. }
+  intros j n x Hn Sh C.
+  rewrite (cp_fill_nonshared p j n x I Hn Sh C).
+  apply (cp_fill_nonshared p' j n x I' (Mono j n Hn) Sh C).
+Qed.
+
+(* ---------------------------------------------------------------- Compiler::_new_const: the operand carries the offset *)
+Theorem new_const_operand_thm p d s p' o : Inv p -> wf_cmd d s -> new_const_operand p d s = (p', o) -> psize p' <= 2147483648 ->
+  match o with
+  | Some (disp, sz) => cp_add p d s = (p', Ok disp) /\ sz = s /\ valid_size s /\ 0 <= disp /\ disp + s <= psize p'
+  | None => ~ valid_size s /\ p' = p
+  end.
+Proof.
+  intros I Wf E G. unfold new_const_operand in E. destruct (cp_add p d s) as (p1, r) eqn:EA.
+  destruct (cp_add_step p d s p1 r I Wf EA) as (I1 & _ & _ & R).
+  { destruct r; inversion E; subst; lia. }
+  destruct r as [off|]; inversion E; subst p' o; clear E.
+  - destruct R as (V & HN & _). destruct (has_node_ok p1 d s off I1 V HN) as (A & _ & B & _).
+    assert (W : wrap_i32 off = off).
+    { unfold wrap_i32. rewrite Z.mod_small by (destruct V as [->|[->|[->|[->|[->|[->| ->]]]]]]; lia). lia. }
+    rewrite W. auto.
+  - destruct R as (NV & ->). auto.
+Qed.
+
+(* beyond 2 GiB the int32 cast wraps: a state-level witness (not reachable in practice: 2^25 64-byte constants) *)
+Definition pool_2g : pool := mkPool (repeat [] 7) (repeat [] 7) 2147483648 64 64.
+
+Lemma pool_2g_inv : Inv pool_2g.
+Proof.
+  assert (E : forall i, nth i (trees pool_2g) [] = []) by (intros; apply nth_repeat_nil).
+  assert (Eg : forall i, nth i (gaps pool_2g) [] = []) by (intros; apply nth_repeat_nil).
+  constructor.
+  - constructor.
+    + reflexivity.
+    + intros i n H. rewrite E in H. destruct H.
+    + intros i. rewrite E. constructor.
+    + intros i n H. rewrite E in H. destruct H.
+  - reflexivity.
+  - simpl; lia.
+  - intros i g H. rewrite Eg in H. destruct H.
+  - simpl. exact I.
+Qed.
+
+Lemma new_const_operand_2GiB_refuted :
+  exists p d s, Inv p /\ wf_cmd d s /\ psize p = 2147483648 /\
+    snd (cp_add p d s) = Ok 2147483648 /\ snd (new_const_operand p d s) = Some (-2147483648, s).
+Proof.
+  exists pool_2g, [1; 2; 3; 4; 5; 6; 7; 8], 8.
+  split; [apply pool_2g_inv|]. split; [unfold wf_cmd; simpl; lia|]. split; [reflexivity|]. split; vm_compute; reflexivity.
+Qed.
+
+(* ---------------------------------------------------------------- the model is the one determined by model_params *)
+Theorem params_used :
+  (forall off sz, gap_class off sz = gap_class_of (par_gap_chain model_params) (par_gap_else model_params) off sz) /\
+  cp_init = mkPool (repeat [] (par_index_count model_params)) (repeat [] (par_index_count model_params)) 0 0 0 /\
+  (forall s, valid_size s <-> exists i, In (s, i) (par_index_sizes model_params)) /\
+  (forall s i, In (s, i) (par_index_sizes model_params) -> ctz s = i /\ pow2 i = s /\ (i < par_index_count model_params)%nat) /\
+  (forall z, trunc32 z = z mod 2 ^ par_offset_bits model_params) /\
+  (forall f ts ti ss pc d off, share_loop (S f) ts ti ss pc d off =
+     if par_share_above model_params <? ss
+     then share_loop f (share_row (pred ti) (ss / 2) d off (2 * pc) ts) (pred ti) (ss / 2) (2 * pc)%nat d off else ts) /\
+  (forall n ti size gs acc, (* par_loop_same_bucket = true, par_loop_breaks = false: every iteration looks at stack ti again *)
+     gap_loop (S n) ti size gs acc =
+       match nth ti gs [] with
+       | [] => gap_loop n ti size gs acc
+       | (goff, gsz) :: rest =>
+         gap_loop n ti size (if 0 <? gsz - size then add_gap (upd ti rest gs) goff (gsz - size) else upd ti rest gs) (Some goff)
+       end) /\
+  (forall p, (* par_fill_clears_all, par_fill_skips_shared *)
+     cp_fill p = fold_left (fun buf t => fold_left (fun b n => if n_shared n then b else write_at b (n_off n) (n_key n)) t buf)
+                           (trees p) (repeat 0 (Z.to_nat (psize p)))) /\
+  (forall z, wrap_i32 z = (z + 2 ^ (par_new_const_disp_bits model_params - 1)) mod 2 ^ par_new_const_disp_bits model_params
+                          - 2 ^ (par_new_const_disp_bits model_params - 1)).
+Proof.
+  split; [intros; reflexivity|]. split; [reflexivity|]. split.
+  { intros s. unfold valid_size. simpl. split.
+    - intros [->|[->|[->|[->|[->|[->| ->]]]]]]; eexists; eauto 10.
+    - intros (i & H). repeat (destruct H as [H|H]; [inversion H; auto 10|]). destruct H. }
+  split.
+  { intros s i H. simpl in H. repeat (destruct H as [H|H]; [inversion H; subst; repeat split; simpl; lia|]). destruct H. }
+  split; [intros; reflexivity|]. split; [intros; reflexivity|]. split; [intros; reflexivity|].
+  split; intros; reflexivity.
+Qed.
+
+(* ---------------------------------------------------------------- non-vacuity of later theorems' hypotheses *)
+Example embed_layout_example :
+  wf_cmds ex_unit_test /\ guard ex_unit_test /\ embed_layout 3 (final ex_unit_test) = (32, 96) /\
+  embed_layout 7 cp_init = (7, 7).
+Proof.
+  split; [apply wf_cmds_by_length; reflexivity|]. split; [unfold guard; vm_compute; discriminate|]. split; vm_compute; reflexivity.
+Qed.
+
+Example offset_truncation_general_hypotheses_satisfiable :
+  Inv pool_4g /\ psize pool_4g = 4294967296 /\ 8 <= Z.of_nat (length [1; 2; 3; 4; 5; 6; 7; 8]) /\
+  tree_get (nth 3 (trees pool_4g) []) (slice [1; 2; 3; 4; 5; 6; 7; 8] 0 8) = None /\ nth 3 (gaps pool_4g) [] = [].
+Proof. split; [apply pool_4g_inv|]. repeat split; vm_compute; try reflexivity. discriminate. Qed.
